@@ -218,5 +218,16 @@ def exc_site(e):
     return "outside"
 
 
+def msg_key(e, nwords=3):
+    """Stable key for an exception message: first words with numbers/identifiers stripped."""
+    import re
+
+    m = str(e).split("\n")[0]
+    m = re.sub(r"\(.*", "", m)  # drop everything from the first parenthesis (keys, shapes, values)
+    m = re.sub(r"[0-9a-f]{8,}", "", m)
+    m = re.sub(r"[^A-Za-z ]+", " ", m)
+    return "_".join(m.split()[:nwords]) or "no_message"
+
+
 def now():
     return time.monotonic()
